@@ -78,6 +78,16 @@ ContentOffsets(fn, b, typ) ==
     [] fn = "ReadLeaseSet" -> (LET r == RefLeaseSet(b) IN IF r.ok THEN << r.encOff + 9, r.leaseOff + 5 >> ELSE << >>)
     [] fn = "ReadEncryptedLeaseSet" -> (LET r == RefEncryptedLeaseSet(b) IN IF r.ok THEN << r.hdrOff + 3, r.lenOff + 9 >> ELSE << >>)
     [] OTHER -> << 3 >>
+\* insertions into regions a lenient parser skips: the payload of the identity's certificate grows by four bytes (NULL certificates
+\* with a payload are accepted with a warning; KEY certificates may carry more than the two type codes).  [at, lenoff, newlen, bytes]
+Insertions(fn, b, typ) ==
+  IF fn \in {"ReadRouterInfo", "ReadLeaseSet", "ReadLeaseSet2", "ReadMetaLeaseSet"} /\ Len(b) >= BlockLen + 3
+  THEN LET n == b[BlockLen + 2] * 256 + b[BlockLen + 3] IN
+       << [kind |-> "insert", at |-> BlockLen + 3 + n, lenoff |-> BlockLen + 1, newlen |-> n + 4, bytes |-> << 222, 173, 190, 239 >>] >>
+  ELSE << >>
+ShiftSlots(sl, at, n) ==
+  LET Sh(x) == IF x >= at THEN x + n ELSE x IN
+  [sl EXCEPT !.sigoff = Sh(@), !.keyoff = Sh(@), !.osigoff = Sh(@), !.from = Sh(@), !.to = Sh(@)]
 StoreTypePrefix(fn) == CASE fn = "ReadLeaseSet2" -> << 3 >> [] fn = "ReadMetaLeaseSet" -> << 7 >> [] fn = "ReadEncryptedLeaseSet" -> << 5 >> [] OTHER -> << >>
 
 JSignedProbe(e) ==
@@ -85,7 +95,7 @@ JSignedProbe(e) ==
       typ == IF "typ" \in DOMAIN e THEN e.typ ELSE 0
       tst == IF "offline" \in DOMAIN e THEN e.offline.tst ELSE -1
       cls == e.fn \o "/" \o e.adv.kind \o "/st=" \o ToString(e.st) \o (IF tst >= 0 THEN "/tst=" \o ToString(tst) ELSE "")
-      sameLayout == r.setup /\ SlotsOf(e.fn, r.mut, typ) = EventSlots(e)
+      sameLayout == r.setup /\ SlotsOf(e.fn, r.mut, typ) = (IF e.adv.kind = "insert" THEN ShiftSlots(EventSlots(e), e.adv.at, Len(e.adv.bytes)) ELSE EventSlots(e))
   IN
   << R("C05", "probe_set_up", TRUE, r.setup, cls),
      \* the specification's own consistency: the slots handed to the driver are the reference layout of the signed bytes, with the prescribed prefix
